@@ -17,3 +17,39 @@ fn kani_lthash_add_sub_inverse() {
     x -= &h1;
     assert!(x == a);
 }
+
+// COMPLETE (all 1024 lanes symbolic): `+=` is the lane-wise wrapping sum, `-=` the lane-wise wrapping difference.
+// This is the contract the Verus unit `lthash` assumes for AddAssign / SubAssign (their bodies are zip iterator
+// loops, outside the Verus subset).
+#[kani::proof]
+#[kani::unwind(1030)]
+fn kani_lthash_add_assign_is_lanewise_wrapping_add() {
+    let a = any_lthash();
+    let b = any_lthash();
+    let mut x = a.clone();
+    x += &b;
+    let i: usize = kani::any();
+    kani::assume(i < NUM_LANES);
+    assert!(x.lanes[i] == a.lanes[i].wrapping_add(b.lanes[i]));
+}
+
+#[kani::proof]
+#[kani::unwind(1030)]
+fn kani_lthash_sub_assign_is_lanewise_wrapping_sub() {
+    let a = any_lthash();
+    let b = any_lthash();
+    let mut x = a.clone();
+    x -= &b;
+    let i: usize = kani::any();
+    kani::assume(i < NUM_LANES);
+    assert!(x.lanes[i] == a.lanes[i].wrapping_sub(b.lanes[i]));
+}
+
+// COMPLETE: the identity has all lanes zero.
+#[kani::proof]
+fn kani_lthash_identity_is_zero() {
+    let x = LtHash::identity();
+    let i: usize = kani::any();
+    kani::assume(i < NUM_LANES);
+    assert!(x.lanes[i] == 0);
+}
